@@ -782,12 +782,13 @@ where
             }
         };
 
-        let probability = unsafe {
-            // SAFETY: see above "SAFETY" comments on all paths that lead here.
-            right_sided_cumulative
-                .wrapping_sub(&left_sided_cumulative)
-                .into_nonzero_unchecked()
-        };
+        // The reasoning in the comments above relies on `self.inner` being a valid (i.e., monotonically
+        // nondecreasing) CDF with a consistent inverse. Both come from safe traits that users can
+        // implement themselves, so we must not rely on them for memory safety.
+        let probability = right_sided_cumulative
+            .wrapping_sub(&left_sided_cumulative)
+            .into_nonzero()
+            .expect("Invalid underlying continuous probability distribution.");
         (symbol, left_sided_cumulative, probability)
     }
 }
@@ -859,12 +860,12 @@ where
             non_leaky + slack(next_symbol, self.model.quantizer.min_symbol_inclusive)
         };
 
-        let probability = unsafe {
-            // SAFETY: probabilities of
-            right_sided_cumulative
-                .wrapping_sub(&self.left_sided_cumulative)
-                .into_nonzero_unchecked()
-        };
+        // Nonzero for every valid (i.e., monotonically nondecreasing) CDF due to the leakiness; but
+        // the CDF comes from a safe trait that users can implement, so we can't rely on it.
+        let probability = right_sided_cumulative
+            .wrapping_sub(&self.left_sided_cumulative)
+            .into_nonzero()
+            .expect("Invalid underlying continuous probability distribution.");
 
         let left_sided_cumulative = self.left_sided_cumulative;
         self.left_sided_cumulative = right_sided_cumulative;
